@@ -8,7 +8,7 @@ from dataclasses import dataclass, field
 from typing import Any, Dict, List, Optional
 
 VERIF = os.path.dirname(os.path.dirname(os.path.abspath(__file__)))
-EVIDENCE_DIR = os.path.join(VERIF, "evidence")
+EVIDENCE_DIR = os.environ.get("KVERIF_EVIDENCE_DIR") or os.path.join(VERIF, "evidence")  # scratch runs against another tree write elsewhere
 VIOLATION_DIR = os.path.join(EVIDENCE_DIR, "violations")
 KNOWN_FILE = os.path.join(VERIF, "known_findings.json")
 
